@@ -751,7 +751,7 @@ class FortranCodegen(Stringifier):
             cases.append(self.format_line('CASE DEFAULT', name))
         footer = self.format_line('END SELECT', name)
         self.depth += self.style.indent_default
-        bodies = self.visit_all(*o.bodies, o.else_body, **kwargs)
+        bodies = self.visit_all((*o.bodies, o.else_body), **kwargs)
         self.depth -= self.style.indent_default
         branches = [item for branch in zip(cases, bodies) for item in branch]
         return self.join_lines(header, *branches, footer)
@@ -780,7 +780,7 @@ class FortranCodegen(Stringifier):
             cases.append(self.format_line('CLASS DEFAULT', name))
         footer = self.format_line('END SELECT', name)
         self.depth += self.style.indent_default
-        bodies = self.visit_all(*o.bodies, o.else_body, **kwargs)
+        bodies = self.visit_all((*o.bodies, o.else_body), **kwargs)
         self.depth -= self.style.indent_default
         branches = [item for branch in zip(cases, bodies) for item in branch]
         return self.join_lines(header, *branches, footer)
@@ -827,7 +827,7 @@ class FortranCodegen(Stringifier):
         footer = self.format_line('END WHERE')
 
         self.depth += self.style.indent_default
-        bodies = self.visit_all(*o.bodies, o.default, **kwargs)
+        bodies = self.visit_all((*o.bodies, o.default), **kwargs)
         self.depth -= self.style.indent_default
 
         branches = [item for branch in zip(cases, bodies) for item in branch]
